@@ -83,6 +83,7 @@ var pointFuncs = []string{
 // R1 optional: instrumented when present, silently skipped when absent
 // (names that differ between versions of the product).
 var pointFuncsOptional = []string{
+	"internal/queue:MemoryStore.*",
 	"internal/app:runtimeState.loadAuth",
 	"internal/admin:Server.handleMessagesPublish",
 	"internal/admin:Server.handleApplicationEndpointPublish",
@@ -402,7 +403,16 @@ func main() {
 						changed = true
 					}
 				}
-				if points[k] || optPoints[k] {
+				// "Recv.*": every exported method of the receiver
+				wild := false
+				if i := strings.Index(k.name, "."); i > 0 && ast.IsExported(fd.Name.Name) {
+					wk := funcKey{dir, k.name[:i] + ".*"}
+					if points[wk] || optPoints[wk] {
+						wild = true
+						foundPoint[wk] = true
+					}
+				}
+				if points[k] || optPoints[k] || wild {
 					foundPoint[k] = true
 					pi := &pointInserter{prefix: filepath.Base(dir) + "." + k.name, labels: &labels}
 					fd.Body.List = pi.instrumentList(fd.Body.List, connOnly[k])
